@@ -161,7 +161,9 @@ Definition copy_or_downsample (src : mode hip) (src_lgk tgt_lgk : N) : outcome (
            | MArr8 _ => a8_merge_array_same_lgk (a8_new src_lgk (hip_new src_lgk)) vals
            | _ => Ok (copy_array46_via_coupons (a8_new src_lgk (hip_new src_lgk)) 0 vals)
            end) (fun result =>
-    let result := a8_set_hip_accum (h_accum se) result in
+    (* the accumulator is taken over only by a copy that is still in order (an Array8 source is
+       copied by a register merge, which leaves the copy out of order with a zero accumulator) *)
+    let result := if h_ooo (a8_est result) then result else a8_set_hip_accum (h_accum se) result in
     Ok (if h_ooo se then a8_rebuild_estimator_from_registers result else result))))
   else
     merge_array_with_downsample (a8_new tgt_lgk (hip_new tgt_lgk)) tgt_lgk src src_lgk.
